@@ -113,6 +113,9 @@ func TestVerifC02(t *testing.T) {
 		for _, dv := range dates {
 			ds := dv.d.Format("2006-01-02")
 			modes = append(modes, "on "+ds, "off "+ds, "local "+ds, "on "+ds+"\n")
+			if dv.name == "D=begin-1d" {
+				modes = append(modes, "ON "+ds, "On "+ds, "onx "+ds, "o "+ds, "on\t"+ds, "on,"+ds, "on "+ds+" x")
+			}
 		}
 		type svar struct {
 			name string
